@@ -506,14 +506,25 @@ func cursorUpdates(p *Program, f *ssa.Function, v ssa.Value) []string {
 		if !ok || b.Op != token.ADD {
 			continue
 		}
-		t := e.eval(b).String()
-		// replace phi symbols of this function's cursor by CUR
+		phiNames := map[string]bool{}
 		for y := range cl {
 			if ph, ok := y.(*ssa.Phi); ok {
-				t = strings.ReplaceAll(t, e.eval(ph).String(), "CUR")
+				phiNames[e.eval(ph).String()] = true
 			}
 		}
-		t = strings.ReplaceAll(t, "local:complit.", "qr.")
+		tt := mapSyms(e.eval(b), func(n string) string {
+			if phiNames[n] {
+				return "CUR"
+			}
+			// the session may be a parameter (qr) or a local composite literal
+			for _, pre := range []string{"local:complit.", "qr."} {
+				if strings.HasPrefix(n, pre) {
+					return "SESSION." + strings.TrimPrefix(n, pre)
+				}
+			}
+			return n
+		})
+		t := tt.String()
 		set[t] = true
 	}
 	return sortedKeys(set)
@@ -611,6 +622,44 @@ func checkEmptyGuard(p *Program, r *Report) {
 					sentinels[f] = m
 				}
 				break
+			}
+		}
+	}
+	// a wrapper that returns a callee's results unchanged inherits its sentinel
+	for round := 0; round < 3; round++ {
+		for _, f := range p.FuncsOf(triePath) {
+			if f.Synthetic != "" || len(f.Blocks) == 0 || sentinels[f] != nil {
+				continue
+			}
+			rets := returnsOf(f)
+			if len(rets) != 1 {
+				continue
+			}
+			var call *ssa.Call
+			same := true
+			for i, res := range rets[0].Results {
+				switch x := res.(type) {
+				case *ssa.Call:
+					if len(rets[0].Results) == 1 {
+						call = x
+					} else {
+						same = false
+					}
+				case *ssa.Extract:
+					c, _ := x.Tuple.(*ssa.Call)
+					if c == nil || x.Index != i || (call != nil && call != c) {
+						same = false
+					}
+					call = c
+				default:
+					same = false
+				}
+			}
+			if same && call != nil && sentinels[calleeOf(call)] != nil {
+				// the call must be unconditional (dominates the return)
+				if call.Block().Dominates(rets[0].Block()) {
+					sentinels[f] = sentinels[calleeOf(call)]
+				}
 			}
 		}
 	}
